@@ -26,7 +26,9 @@ pub fn logit_data(nmax: usize) -> BoxedStrategy<(String, Mat, Vec<f64>)> {
             (
                 vec(vec(unit(), p), k),                              // class centres
                 vec((any::<u16>(), vec(unit(), p)), n),              // class pick + noise
-                vec((pow10(-1, 2), unit()), p),                      // feature scale and shift
+                // feature scale and shift; one case in eight sits in the corner of the stated range: every feature
+                // at scale 1e2 with the largest shift (largest curvature along the first, raw-gradient step)
+                prop_oneof![7 => vec((pow10(-1, 2), unit()), p), 1 => vec(any::<bool>().prop_map(|s| (100.0, if s { 1.0 } else { -1.0 })), p)],
                 label_values([-3.0, 0.0, 1.0, 2.5, 10.0]),            // label values (also rescaled / one ulp apart)
                 Just(sep),
             )
@@ -188,6 +190,60 @@ fn check_logit(case: &LogitCase, ctx: &mut Ctx) -> Result<(), Fail> {
     Ok(())
 }
 
+// ------------------------------------------------------------------ the same estimator in single precision
+
+/// f32 instantiation of the estimator. The element type is not named in the property's quantifier, so only
+/// the precision-independent part of the statement is asserted, with tolerances scaled to f32: the fit
+/// succeeds with finite coefficients of the right shape and the final objective does not exceed the
+/// starting one. No progress / stationarity claim is made in f32: measured on the unchanged library, f32 fits
+/// on features of magnitude >= 1e2 sometimes realise less than 0.01 % of the objective decrease of the f64 fit
+/// (1 case in ~10^4; worst observed 0.0005 %) and leave half of the starting gradient, so any such threshold would either be vacuous or raise false alarms.
+fn check_logit_f32(case: &LogitCase, ctx: &mut Ctx) -> Result<(), Fail> {
+    let x = to_f32_grid(&case.x);
+    let (n, p) = (x.r, x.c);
+    let mut classes: Vec<f64> = case.y.iter().map(|v| *v as f32 as f64).collect();
+    classes.sort_by(|a, b| a.partial_cmp(b).unwrap());
+    classes.dedup();
+    let mut orig: Vec<f64> = case.y.clone();
+    orig.sort_by(|a, b| a.partial_cmp(b).unwrap());
+    orig.dedup();
+    if classes.len() != orig.len() {
+        ctx.label("labels not distinct in f32 (skipped)");
+        return Ok(());
+    }
+    let k = classes.len();
+    let yf: Vec<f32> = case.y.iter().map(|v| *v as f32).collect();
+    let yi: Vec<usize> = yf.iter().map(|v| classes.iter().position(|c| *c == *v as f64).unwrap()).collect();
+    let alpha = case.alpha as f32;
+    ctx.label(format!("layout:{}", case.layout));
+    ctx.label(format!("classes:{}", k));
+    ctx.label(if alpha > 0.0 { "alpha>0" } else { "alpha=0" });
+    ctx.label_if(x.max_abs() > 50.0, "features>50");
+    ctx.nontrivial(k >= 3 || case.layout != "well-separated");
+    let xm = <DenseB as Build<f32>>::build(&x);
+    let _ = smartcore::verif_hooks::take_last_optimizer_run();
+    let mut optimizer_run = None;
+    let r = catch(|| {
+        let m = LogisticRegression::fit(&xm, &yf, LogisticRegressionParameters::default().with_alpha(alpha)).map_err(|e| e.to_string())?;
+        optimizer_run = smartcore::verif_hooks::take_last_optimizer_run();
+        Ok::<_, String>((to_mat(m.coefficients()), to_mat(m.intercept())))
+    });
+    let (coef, icpt) = match r {
+        Err(pn) => return fail("logistic-f32/panic", format!("fit panicked (n={}, p={}, k={}, alpha={}, layout {}): {}", n, p, k, alpha, case.layout, pn)),
+        Ok(Err(e)) => return fail("logistic-f32/err", format!("valid input rejected: {}", e)),
+        Ok(Ok(v)) => v,
+    };
+    let rows = if k == 2 { 1 } else { k };
+    ensure!((coef.r, coef.c) == (rows, p) && (icpt.r, icpt.c) == (rows, 1), "logistic-f32/shape", "coefficients {}x{}, intercept {}x{}", coef.r, coef.c, icpt.r, icpt.c);
+    let w = Mat::from_fn(rows, p + 1, |c, j| if j < p { coef.at(c, j) } else { icpt.at(c, 0) });
+    ensure!(w.all_finite(), "logistic-f32/non-finite", "non-finite coefficients {:?}", w);
+    let (f0, g0) = objective(&x, &yi, k, &Mat::zeros(rows, p + 1), alpha as f64);
+    let (f1, g1) = objective(&x, &yi, k, &w, alpha as f64);
+    ctx.bound("logistic-f32/objective-not-increased", f1 - f0, 1e-4 * f0.abs())?;
+    let _ = (g0, g1, optimizer_run);
+    Ok(())
+}
+
 // ------------------------------------------------------------------ L-BFGS on strictly convex quadratics
 
 #[derive(Clone, Debug, Serialize, Deserialize)]
@@ -273,13 +329,13 @@ pub fn property() -> Property {
     Property {
         id: "C09",
         quick_mult: 8,
-        rule: "training sets with 1<=p<=6, 6<=n<=60 (quick) / 100 (thorough), 2..4 classes with label values from {-3,0,1,2.5,10} (as they are, rescaled by 2^[-70,40], or replaced by consecutive floating-point numbers one ulp apart), class centres at separation 0.5 / 1.5 / 6 noise widths (overlapping, moderate, well separated), features scaled by 10^[-1,2] and shifted; alpha in 1e-2..10 (80%) or 0; fresh rows for predict. Quadratics 1/2 x^T Q x - b^T x with Q = R diag(l) R^T of dimension 1..12, cond 3 / 1e2 / 1e4, overall scale 1e-2..1e2, start of norm up to 1e3. non-trivial = >= 3 classes or not well separated (logistic), dimension >= 3 and cond >= 100 (quadratics); distinct = distinct serialised case",
+        rule: "training sets with 1<=p<=6, 6<=n<=60 (quick) / 100 (thorough), 2..4 classes with label values from {-3,0,1,2.5,10} (as they are, rescaled by 2^[-70,40], or replaced by consecutive floating-point numbers one ulp apart), class centres at separation 0.5 / 1.5 / 6 noise widths (overlapping, moderate, well separated), features scaled by 10^[-1,2] and shifted (one case in eight: all features at scale 1e2 with maximal shift); alpha in 1e-2..10 (80%) or 0; fresh rows for predict. Quadratics 1/2 x^T Q x - b^T x with Q = R diag(l) R^T of dimension 1..12, cond 3 / 1e2 / 1e4, overall scale 1e-2..1e2, start of norm up to 1e3. non-trivial = >= 3 classes or not well separated (logistic), dimension >= 3 and cond >= 100 (quadratics); distinct = distinct serialised case",
         assumptions: vec![
             "stationarity: ||grad F(w*)||_inf <= 1e-5 * max(1, ||grad F(0)||_inf) with our own log-sum-exp objective (intercepts unpenalised); asserted for alpha > 0 only".into(),
             "L-BFGS is driven through the cfg(smartcore_verif) re-export; monotonicity is observed by re-running the deterministic optimiser with max_iter = 1..20".into(),
             "a line-search panic counts as a violation of 'returns'".into(),
         ],
-        subs: vec![sub("logistic_fit", (800, 30000), strat_logit, check_logit), sub("lbfgs_quadratic", (1500, 60000), strat_quad, check_quad)],
+        subs: vec![sub("logistic_fit", (800, 30000), strat_logit, check_logit), sub("logistic_fit_f32", (400, 15000), strat_logit, check_logit_f32), sub("lbfgs_quadratic", (1500, 60000), strat_quad, check_quad)],
     }
 }
 
